@@ -1,6 +1,7 @@
 package main
 
 import (
+	"os"
 	"bytes"
 	"encoding/json"
 	"fmt"
@@ -516,6 +517,17 @@ func (s *storageRunner) httpStep(r *runner, f []string, line string) bool {
 			}
 		}
 		reload()
+		// the template files the generated notifier sections name (relative to the working directory), so that the
+		// notifier coordinator's Configure can parse them
+		if _, err := os.Stat("conf/open.tmpl"); err != nil {
+			// (in a scratch directory of its own: the process works there from now on; all its files were opened before)
+			if dir, derr := os.MkdirTemp("", "burrowverif-http-"); derr == nil {
+				_ = os.Chdir(dir)
+			}
+			_ = os.MkdirAll("conf", 0o755)
+			_ = os.WriteFile("conf/open.tmpl", []byte("{{.Cluster}} {{.Group}} {{.Result.Status}}"), 0o644)
+			_ = os.WriteFile("conf/close.tmpl", []byte("{{.Cluster}} {{.Group}} closed"), 0o644)
+		}
 		res := guard(func() string {
 			// the server as Start builds it: every coordinator's real Configure in Start's order (the notifier modules get
 			// their extras, the defaults of every module are set); a configuration another coordinator refuses is served
@@ -1097,11 +1109,19 @@ func genConfHTTP(g *gen) {
 				t.num("interval", 30)
 				t.num("threshold", 2)
 				t.str("template-open", "conf/open.tmpl")
-				t.boolean("send-close", r.chance(1, 2))
+				sendClose := r.chance(1, 2)
+				t.boolean("send-close", sendClose)
+				if sendClose {
+					t.str("template-close", "conf/close.tmpl")
+				}
 				switch cls {
 				case "http":
 					t.str("url-open", "https://hooks.example/open")
 					t.str("method-open", "POST")
+					if sendClose {
+						t.str("url-close", "https://hooks.example/close")
+						t.str("method-close", "POST")
+					}
 					t.str("username", "hookuser")
 					t.str("password", secret())
 					t.num("timeout", 5)
